@@ -342,6 +342,40 @@ static void corruption_case(const cfg_t *c, rng_t *rng)
 	rep_case_done(1, 0, 1);
 }
 
+/* ---- interior of the accepted region: every accepted configuration must carry a block end to end ---- */
+static void interior(long *unit)
+{
+	int T = g_run.thorough;
+	static const uint64_t Ls[] = { 1, 3, 16, 33, 7, 64 };
+	/* LDPC-Staircase: small k (including 1), every r in 3..14 (odd and even, at and above N1), every N1 <= min(r, 9) */
+	static const uint64_t lk[] = { 1, 2, 3, 4, 7, 16, 40 };
+	for (unsigned ik = 0; ik < sizeof lk / sizeof lk[0]; ik++, (*unit)++) {
+		rep_unit(*unit);
+		if (!rep_unit_mine(*unit)) continue;
+		rng_t rng = rng_make(g_run.seed, 970, ik);
+		for (uint64_t r = 3; r <= 14; r++) for (int64_t N1 = 3; N1 <= (int64_t)r && N1 <= 9; N1++) for (int sd = 0; sd < (T ? 6 : 2); sd++) {
+			pt_t p = { 3, lk[ik], r, Ls[(ik + r + (uint64_t)N1 + (unsigned)sd) % 6], 0, N1, sd == 0 ? 1 : sd == 1 ? 16807 : 1 + (int64_t)rng_below(&rng, 2147483646u), 1 + (int)((r + (uint64_t)N1 + (unsigned)sd) % 3), 0 };
+			if (p.role == OF_ENCODER) p.role = OF_DECODER;
+			for (int rep = 0; rep < (T ? 4 : 2); rep++) point(&p, &rng);
+		}
+	}
+	/* Reed-Solomon: GF(2^4) every (k, r) with k + r <= 15; GF(2^8) both codecs on a k ladder with r = 1, 2, 5 and the largest legal r */
+	for (int which = 0; which < 3; which++, (*unit)++) {
+		rep_unit(*unit);
+		if (!rep_unit_mine(*unit)) continue;
+		rng_t rng = rng_make(g_run.seed, 980, (uint64_t)which);
+		if (which == 0) {
+			for (uint64_t k = 1; k <= 14; k++) for (uint64_t r = 1; k + r <= 15; r++) { pt_t p = { 2, k, r, Ls[(k + r) % 6], 4, 0, 0, OF_DECODER + (int)((k + r) & 1), 0 }; point(&p, &rng); if (T) point(&p, &rng); }
+		} else {
+			static const uint64_t kl[] = { 1, 2, 3, 10, 63, 64, 100, 127, 128, 200, 253, 254 };
+			for (unsigned i = 0; i < sizeof kl / sizeof kl[0]; i++) {
+				uint64_t k = kl[i], rr[4] = { 1, 2, 5, 255 - k };
+				for (int j = 0; j < 4; j++) { if (k + rr[j] > 255) continue; pt_t p = { which == 1 ? 1 : 2, k, rr[j], Ls[(i + (unsigned)j) % 6], which == 1 ? 0 : 8, 0, 0, OF_DECODER + (int)((i + (unsigned)j) & 1), 0 }; point(&p, &rng); if (T) point(&p, &rng); }
+			}
+		}
+	}
+}
+
 int p_c09(void)
 {
 	g_prop = "C09";
@@ -352,6 +386,7 @@ int p_c09(void)
 	grid(2, 8, &unit, maxnon);
 	grid(2, 4, &unit, maxnon);
 	grid(3, 0, &unit, maxnon);
+	interior(&unit);
 	/* argument corruption */
 	static const cfg_t cc[] = { {1,0,5,3,16,0,0}, {1,0,1,1,1,0,0}, {1,0,200,55,8,0,0}, {2,8,5,3,16,0,0}, {2,8,100,100,3,0,0}, {2,4,5,3,16,0,0}, {2,4,7,8,5,0,0},
 				    {3,0,20,10,16,3,1}, {3,0,5,5,7,4,16807}, {3,0,100,50,4,5,2147483646u}, {3,0,1,3,9,3,1} };
@@ -359,7 +394,7 @@ int p_c09(void)
 		rep_unit(unit);
 		if (!rep_unit_mine(unit)) continue;
 		rng_t rng = rng_make(g_run.seed, 990, i);
-		for (int rep = 0; rep < (T ? 10 : 2); rep++) { cfg_t c = cc[i]; if (rep) { c.L = 1 + rng_below(&rng, 40); if (c.codec == 3) c.seed = 1 + rng_below(&rng, 2147483646u); } corruption_case(&c, &rng); }
+		for (int rep = 0; rep < (T ? 40 : 2); rep++) { cfg_t c = cc[i]; if (rep) { c.L = 1 + rng_below(&rng, 40); if (c.codec == 3) c.seed = 1 + rng_below(&rng, 2147483646u); } corruption_case(&c, &rng); }
 	}
 	rep_count("grid_points", g_pts);
 	return 0;
